@@ -17,6 +17,14 @@ def run(tier, seed):
         r["twin"] = {"by": "rot", "args": ac.twin_args(r, "rot", rng)}
         recipes.append(r)
     traces = ac.validate(run, "annotated-assemblies", recipes)
+    if not q:      # real registry plasmids with their own feature tables, one input rotated by the implementation
+        from . import registry_asm
+        rr = registry_asm.assembly_recipes(rng, 6)
+        for r in rr[:3]:
+            r["twin"] = {"by": "rot", "args": [rng.randrange(1, 2000)] + [rng.randrange(1, 1500) for _ in r["modules"]]}
+        run.extra["registry_assemblies"] = len(rr)
+        if rr:
+            ac.validate(run, "registry-assemblies", rr)
     nin = sum(len(x["feats"]) for t in traces for x in [t[0]["vec"]] + t[0]["mods"])
     nout = sum(1 for t in traces for f in t[0]["out"]["feats"] if not (f["type"] == "source" and f["srclabel"]))
     run.extra.update({"input_features": nin, "inherited_features_in_products": nout})
